@@ -282,6 +282,11 @@ def filt_params_line(ex):
                                                     1 if f.get("resetBeforeCopy") else 0, 1 if f.get("tryLock") else 0)
 
 
+def build_filters(ex):
+    from extractors.spin import spin_flag_define
+    return vlib.build_harness("h1_filters", ["h1_filters.cpp"], extra_flags=["-fno-access-control", spin_flag_define(ex)])
+
+
 def filt_trace_block(out, tid):
     """the lines of trace `tid` in a harness output: (description lines for a replay, all lines for the reader)"""
     desc, allv, on = [], [], False
@@ -303,7 +308,7 @@ def filter_stream(ck, tier, ex, ps):
     replayed on the Lean model (`driver filt trace`), run-time memory orders cross-checked against the extraction."""
     import time
     t0 = time.time()
-    okf, fbin, flog = vlib.build_harness("h1_filters", ["h1_filters.cpp"], extra_flags=["-fno-access-control"])
+    okf, fbin, flog = build_filters(ex)
     if not okf:
         ck.violation("harness_build_filters", flog, "harness h1_filters no longer compiles against the current tree (correspondence of the "
                      "filter-concurrency model broken): " + flog[-300:], no_input=True)
@@ -531,11 +536,11 @@ def run(prop, tier):
 
 
 def replay_filt(prop, path, first):
-    okf, fbin, flog = vlib.build_harness("h1_filters", ["h1_filters.cpp"], extra_flags=["-fno-access-control"])
+    ex = vlib.run_extract()
+    okf, fbin, flog = build_filters(ex)
     if not okf:
         print(flog)
         return 2
-    ex = vlib.run_extract()
     vlib.lake_build(["driver"])
     w = first.split()
     cmd = [fbin, "gen"] + w[2:] if len(w) > 2 and w[1] == "gen" else [fbin, "replay", path]
